@@ -77,7 +77,7 @@ class C18:
             "versions and >= 2 operation kinds before the probe; distinct = operation sequence")
     assumptions = ["an exception is a result too (compared by type and message); object addresses are normalised",
                    "explicit opcode remapping (the documented exception) is not in the operation set"]
-    budgets = {"quick": {"shards": 14, "examples": 36, "seconds": 80},
+    budgets = {"quick": {"shards": 14, "examples": 44, "seconds": 80},
                "thorough": {"shards": 16, "examples": 400, "seconds": 1500}}
     minimise = True
 
